@@ -207,7 +207,10 @@ def check_cli(cr, ctx):
     # one assembly prefix in, no haplotype assemblies out: every break is a break of the primary assembly
     # ((input - primary) & (input - output) = input - output), so the report has a Primary entry that says so
     names = [n for n, _ in out]
-    plain_in = not any(re.match(r"^[^_]+_.+_\d+$", sc[0]) for sc in (cr["input"]["scaffolds"] if isinstance(cr["input"], dict) else cr["input"]))
+    # (the code takes an input scaffold's assembly prefix from the name of its first contig: `hap1_...`)
+    in_scs_ = cr["input"]["scaffolds"] if isinstance(cr["input"], dict) else cr["input"]
+    firsts = [next((r[1] for r in sc[1] if r[0] == "F"), None) for sc in in_scs_]
+    plain_in = not any(f is not None and re.match(r"[A-Za-z]+\d+_", f) for f in firsts)
     prim = f"out.1.primary.curated.{fmt}"
     plain_out = all(n == prim or n in (f"out.1.additional_haplotigs.curated.{fmt}", f"out.1.contaminants.{fmt}", f"out.1.falseduplicates.{fmt}") for n in names)
     if plain_in and plain_out and exp[1] > 0 and any(n == prim and scs for n, scs in out):
